@@ -47,7 +47,7 @@ def floors(tier):
     return {"evaluations": int(z["pairs"] * .9), "distinct": int(z["pairs"] * .6),
             "counters": {"judged_open": int(z["pairs"] * .9), "judged_reloaded": int(z["pairs"] * .9), "fmt:number": 2000, "fmt:currency": 2000, "fmt:percentage": 2000,
                          "fmt:scientific": 1500, "fmt:base": 1500, "fmt:fraction": 1500, "fmt:rating": 50, "ties": 500, "negatives": 3000,
-                         "twos_complement_cases": 100, "judged_in_two_table_documents": 10000},
+                         "twos_complement_cases": 100, "judged_in_two_table_documents": 10000, "values_written_as_int": 2000, "reads_under_a_hostile_decimal_context": 5000},
             "hist_sizes": {"currency": 300}}
 
 
@@ -192,7 +192,12 @@ def run_doc(cases, rec, tag):
             docs._decode_format_kwargs(kw)
             v = float(cs["v"])
             try:
-                t.write(r, c, v)
+                # a whole number may arrive as a Python int: the display of 5 and of 5.0 is the same
+                if v.is_integer() and abs(v) < 1e15 and i % 2:
+                    t.write(r, c, int(v))
+                    rec.count("values_written_as_int")
+                else:
+                    t.write(r, c, v)
                 t.set_cell_formatting(r, c, cs["t"], **kw)
             except Exception as e:  # noqa: BLE001
                 rec.violation("format_refused", {"fmt": cs["t"], "exc": type(e).__name__}, {"kw": cs["kw"], "v": cs["v"], "msg": str(e)[:200]}, case={"part": "pair", **cs})
@@ -202,7 +207,16 @@ def run_doc(cases, rec, tag):
         for r, c, cs, v in placed:
             case = {"part": "pair", **cs}
             try:
-                text = t.cell(r, c).formatted_value
+                if (r + c) % 5 == 0:
+                    # what a cell displays does not depend on the caller's decimal context
+                    import decimal
+                    with decimal.localcontext() as ctx:
+                        ctx.prec = 5
+                        ctx.rounding = decimal.ROUND_DOWN
+                        text = t.cell(r, c).formatted_value
+                    rec.count("reads_under_a_hostile_decimal_context")
+                else:
+                    text = t.cell(r, c).formatted_value
             except Exception as e:  # noqa: BLE001
                 rec.violation("formatted_value_raised", {"fmt": cs["t"], "exc": type(e).__name__, "view": "open"}, {"kw": cs["kw"], "v": cs["v"], "msg": str(e)[:200]}, case=case)
                 continue
